@@ -188,3 +188,20 @@ package lang
 //@   ensures imp(fid == 0, result1 != nil)
 //@   ensures imp(result1 == nil, result != nil && result == old@lock1(f.list[fid]))
 //@   ensures imp(result1 != nil, result == nil)
+
+// ---- C32: which fields each mutex protects (checked by the guard sweep over the whole package) ------
+//@ type Aliases guarded_by mutex: aliases
+//@ type MurexFuncs guarded_by mutex: fn
+//@ type methods guarded_by mutex: dt
+//@ type privateFunctions guarded_by mutex: module
+//@ type Variables guarded_by mutex: vars
+//@ type ModuleVars guarded_by mutex: vars
+//@ type foregroundProc guarded_by mutex: p
+//@ type ForkManagement guarded_by mutex: forks
+//@ type Process guarded_by hasTerminatedM: hasTerminatedV
+
+// helpers that are called with the lock already held
+//@ func (*methods).exists [C32]
+//@   requires held(m.mutex)
+//@ func (*methods).get [C32]
+//@   requires held(m.mutex)
